@@ -13,6 +13,7 @@
 //   path <n> <state>*n                                                          -> ok chk=<0/1>
 //   goals <m> <state>*m                                                         -> ok
 //   collapse <maxSteps> <maxEmpty> | rope <delta> <eqTol> | subdivide | interp | interpn <count>
+//   repair <attempts> <k> <state>*k      (checkAndRepair, raw samples scripted; r = 2*originalValid + result; appends ` iv <m> (<state> <0/1>)*m`)
 //   reduce <maxSteps> <maxEmpty> <rangeRatio> <k> <raw>*k
 //   pshort <maxSteps> <maxEmpty> <rangeRatio> <snap> <k> <u>*k
 //   rnd <seed> <obj> (reduce ms me rr | pshort ms me rr snap | collapse ms me | rope delta tol | bspline steps minChange
@@ -127,6 +128,43 @@ public:
         si_->getStateSpace()->copyToReals(r, s);
         return ob::Cost(1.0 + r[0] * r[0]);
     }
+};
+
+// scripted raw state sampler (for checkAndRepair's UniformValidStateSampler): every sample* call yields the next scripted
+// state, the default state once the script is exhausted
+struct SampleScript
+{
+    std::vector<ob::State *> states;
+    ob::State *dflt = nullptr;
+    size_t i = 0;
+};
+
+class ScriptedSampler : public ob::StateSampler
+{
+public:
+    ScriptedSampler(const ob::StateSpace *sp, std::shared_ptr<SampleScript> sc) : ob::StateSampler(sp), sc_(std::move(sc))
+    {
+    }
+    void sampleUniform(ob::State *s) override
+    {
+        next(s);
+    }
+    void sampleUniformNear(ob::State *s, const ob::State *, double) override
+    {
+        next(s);
+    }
+    void sampleGaussian(ob::State *s, const ob::State *, double) override
+    {
+        next(s);
+    }
+
+private:
+    void next(ob::State *s)
+    {
+        space_->copyState(s, sc_->i < sc_->states.size() ? sc_->states[sc_->i] : sc_->dflt);
+        ++sc_->i;
+    }
+    std::shared_ptr<SampleScript> sc_;
 };
 
 struct Ctx
@@ -418,6 +456,39 @@ int main()
             {
                 nargs(1);
                 p.interpolate((unsigned int)argN(1));
+            }
+            else if (!rnd && rt == "repair")
+            {
+                // repair <attempts> <k> <state>*k : checkAndRepair with scripted raw samples; ret = 2*originalValid + result
+                unsigned long long n = argN(2);
+                nargs(2 + n * c.w);
+                auto sc = std::make_shared<SampleScript>();
+                c.mv->rec = false;
+                extra = " iv " + std::to_string(n + 2);
+                auto addIv = [&](const ob::State *st) {
+                    extra += " " + vp::showState(c.space, st) + (c.si->isValid(st) ? " 1" : " 0");
+                };
+                addIv(p.getState(0));
+                addIv(p.getState(p.getStateCount() - 1));
+                for (unsigned long long j = 0; j < n; ++j)
+                {
+                    ob::State *st = c.si->allocState();
+                    size_t i = k + 3 + j * c.w;
+                    vp::parseStateInto(c.space.get(), st, t, i);
+                    sc->states.push_back(st);
+                    addIv(st);
+                }
+                sc->dflt = c.si->cloneState(p.getState(0));
+                c.space->setStateSamplerAllocator(
+                    [sc](const ob::StateSpace *sp) { return std::make_shared<ScriptedSampler>(sp, sc); });
+                c.mv->rec = true;
+                auto pr = p.checkAndRepair((unsigned int)argN(1));
+                c.mv->rec = false;
+                c.space->clearStateSamplerAllocator();
+                ret = (pr.first ? 2 : 0) + (pr.second ? 1 : 0);
+                for (auto *st : sc->states)
+                    c.si->freeState(st);
+                c.si->freeState(sc->dflt);
             }
             else if (!rnd && rt == "reduce")
             {
